@@ -2,6 +2,7 @@ package statsd
 
 import (
 	"context"
+	"net/http"
 	"strings"
 	"sync/atomic"
 	"time"
@@ -224,3 +225,69 @@ func verifC15Pipeline(k int) {
 func VerifC15_Pipeline0() { verifC15Pipeline(0) }
 func VerifC15_Pipeline1() { verifC15Pipeline(1) }
 func VerifC15_Pipeline3() { verifC15Pipeline(3) }
+
+// VerifC15_PipelineConc: the pipeline of VerifC15_Pipeline with two concurrent dispatcher
+// goroutines (two datapoints each, a yield before every dispatch), an upstream with latency
+// (the request is in flight while everybody else runs) and three manual flushes. Asserted per
+// flush: every datapoint whose dispatch had returned before the flush began has been delivered
+// when the flush's notification arrives; at the end: everything dispatched was delivered
+// exactly once (sums and request count), semaphores returned.
+func VerifC15_PipelineConc() {
+	slots := nondetIntIn(1, 2)
+	hfh, up := verifNewForwarder(false, 16, false, web.Zlib, 30*time.Second)
+	slow := &verifSlowUpstream{inner: up}
+	hfh.client = &http.Client{Transport: slow}
+	fc := flush.NewFlushCoordinator()
+	hfh.flushCoordinator = fc
+	hfh.consolidatedMetrics = make(chan []*gostatsd.MetricMap)
+	hfh.consolidator = gostatsd.NewMetricConsolidator(slots, false, time.Hour, hfh.consolidatedMetrics)
+	fc.RegisterFlushable(hfh.consolidator)
+	hfh.metricsSem = make(chan struct{}, 2)
+	hfh.metricsSem <- struct{}{}
+	hfh.metricsSem <- struct{}{}
+	hfh.metricsMergingSem = make(chan struct{}, 1)
+	hfh.metricsMergingSem <- struct{}{}
+	ctx, cancel := context.WithCancel(context.Background())
+	go hfh.Run(ctx)
+	verifSettle()
+	var returned int64 // total of the datapoints whose dispatch has returned
+	finishedDispatchers := 0
+	for d := 0; d < 2; d++ {
+		go func() {
+			for j := 0; j < 2; j++ {
+				verifYield()
+				v := int64(nondetIntIn(1, 9))
+				mm := gostatsd.NewMetricMap(false)
+				mm.Counters["c"] = map[string]gostatsd.Counter{"": {Value: v}}
+				hfh.DispatchMetricMap(ctx, mm)
+				returned += v
+			}
+			finishedDispatchers++
+		}()
+	}
+	delivered := func() int64 {
+		var t int64
+		for _, m := range up.rec.maps {
+			for _, c := range m.Counters["c"] {
+				t += c.Value
+			}
+		}
+		return t
+	}
+	for f := 0; f < 3; f++ {
+		if f == 2 {
+			verifSettle() // let the dispatchers finish before the last flush
+			verifAssert(finishedDispatchers == 2, "dispatchers are not blocked for ever by flushes")
+		}
+		before := returned
+		fc.Flush()
+		fc.WaitForFlush()
+		verifAssert(delivered() >= before, "every datapoint whose dispatch returned before the flush began is delivered by that flush")
+		verifAssert(delivered() <= returned, "nothing is delivered twice")
+	}
+	verifAssert(delivered() == returned, "everything dispatched is delivered exactly once after the last flush")
+	verifAssert(slow.inFlight == 0, "no request is left in flight")
+	verifAssert(len(hfh.metricsSem) == 2 && len(hfh.metricsMergingSem) == 1, "request and merge semaphores are fully returned")
+	cancel()
+	verifReach("pipeline-conc")
+}
